@@ -66,7 +66,7 @@ func pickGas(r *rng.R, c *caseCfg, finite bool) {
 // makeCase derives one case from (seed, workload, index) only.
 func makeCase(workload string, idx int) (c caseCfg, m caseMeta) {
 	r := rng.New(streamBase[workload] + uint64(idx))
-	c.StepCap = 20000
+	c.StepCap = 6000
 	switch workload {
 	case wlTyped:
 		if idx < len(idioms) {
@@ -82,7 +82,15 @@ func makeCase(workload string, idx int) (c caseCfg, m caseMeta) {
 		var fl int
 		c.Script, fl, m.Hostile = genTyped(r)
 		m.Name = "flavor:" + strconv.Itoa(fl)
-		pickGas(r, &c, false)
+		// deep sequences need their gas: mostly priced but unlimited (the gas clause is then
+		// checked by the rerun with consumed-1), sometimes a boundary-biased finite limit.
+		c.GasLimit = -1
+		if !r.Chance(1, 5) {
+			c.Priced, c.BaseFee = true, baseFees[r.Intn(len(baseFees))]
+			if r.Chance(1, 5) {
+				c.GasLimit = gasLimits[3+r.Intn(len(gasLimits)-3)] * int64(1+r.Intn(3))
+			}
+		}
 	case wlMut:
 		var base, other []byte
 		if r.Chance(1, 4) {
